@@ -376,6 +376,13 @@ func tokStr(s string) string {
 	}
 	return strings.NewReplacer(" ", "+", "\t", "+", "\n", "+").Replace(s)
 }
+// tokCron keeps the crontab text exact: only the blank is replaced (by `␣`).
+func tokCron(s string) string {
+	if s == "" {
+		return "_"
+	}
+	return strings.ReplaceAll(s, " ", "␣")
+}
 func tokList(xs []string) string {
 	if len(xs) == 0 {
 		return "-"
@@ -513,9 +520,11 @@ func c10ZeroStep(s string) bool {
 	return false
 }
 
-func c10CronOK(s string) bool {
+// c10ParseOK: the cron library's verdict, asked only when no step is zero (the model decides the zero
+// step itself from the crontab text and then ignores this bit).
+func c10ParseOK(s string) bool {
 	if c10ZeroStep(s) {
-		return false
+		return true
 	}
 	_, err := cron.Parse(s)
 	return err == nil
@@ -556,7 +565,7 @@ func (d c10Doc) declLines(policy string) []string {
 			out = append(out, fmt.Sprintf("onstartup %d", *d.OnStartup))
 		}
 		for _, s := range d.Scheds {
-			out = append(out, fmt.Sprintf("sched0 name=%s c=%s cok=%s af=%s", tokStr(s.Name), tokStr(s.Crontab), tokBit(c10CronOK(s.Crontab)), tokBit(s.AllowFailure != nil && *s.AllowFailure)))
+			out = append(out, fmt.Sprintf("sched0 name=%s c=%s cok=%s af=%s", tokStr(s.Name), tokCron(s.Crontab), tokBit(c10ParseOK(s.Crontab)), tokBit(s.AllowFailure != nil && *s.AllowFailure)))
 		}
 		for _, k := range d.Kubes0 {
 			out = append(out, fmt.Sprintf("kube0 name=%s ev=%s af=%s pt=%s", tokStr(k.Name), tokList(k.Events), tokBit(k.AllowFailure), k.pt()))
@@ -593,7 +602,7 @@ func (d c10Doc) declLines(policy string) []string {
 			tokList(k.Includes), tokStr(k.Queue), tokStr(k.Group), k.pt()))
 	}
 	for _, s := range d.Scheds {
-		out = append(out, fmt.Sprintf("sched name=%s c=%s cok=%s af=%s inc=%s q=%s g=%s", tokStr(s.Name), tokStr(s.Crontab), tokBit(c10CronOK(s.Crontab)),
+		out = append(out, fmt.Sprintf("sched name=%s c=%s cok=%s af=%s inc=%s q=%s g=%s", tokStr(s.Name), tokCron(s.Crontab), tokBit(c10ParseOK(s.Crontab)),
 			tokBit(s.AllowFailure != nil && *s.AllowFailure), tokList(s.Includes), tokStr(s.Queue), tokStr(s.Group)))
 	}
 	adm := func(kind string, a c10Adm) string {
